@@ -95,6 +95,24 @@ def computing_shard(args):
         elif st == "bad":
             part.violation(f"{country}:{sig}", {"kind": "c09gen", "country": country, "bank": bank,
                                                 "account": account, "branch": branch}, "passes", obs)
+        # (ii') every value of the check field that the LIBRARY accepts nationally must round-trip
+        # (the statement quantifies over nationally valid IBANs as the library judges them)
+        if filler == "distinct":
+            cl = bases.classes_of(c)
+            cps = c06.check_positions(country)
+            for vals in itertools.product(*[reg.CLASS_CHARS[cl[p]] for p in cps]):
+                chars = list(body)
+                for p, v in zip(cps, vals):
+                    chars[p] = v
+                b = "".join(chars)
+                part["evals"] += 1
+                st, sig, obs = judge_rebuild(country, b)
+                if st != "skipped":
+                    part.seen.add(hash(("lib-valid", b)))
+                    part.stat("library_accepted_check_values")
+                if st == "bad":
+                    part.violation(f"{country}:{sig}", {"kind": "c09rebuild", "country": country, "bban": b},
+                                   "rebuilt == original", obs)
         # (ii) the same body with reference digits, parsed and rebuilt
         nb = nat.with_check(country, body)
         if nb:
@@ -184,11 +202,51 @@ def rebuild_shard(args):
     return part.done()
 
 
+def sequence_shard(args):
+    """All computing countries generated in ONE process from components cut out of one common digit
+    string (so that the component values of different countries concatenate to the same text), in
+    two orders: remembered check digits must not leak from one country into another."""
+    _, order, tier = args
+    part = par.Part()
+    table = reg.countries()
+    comp = sorted(k for k in nat.COMPUTING if k in table)
+    if order == "reversed":
+        comp = comp[::-1]
+    strings = ["1234567890" * 4, "9081726354" * 4, "0" * 40, "5" * 40]
+    for D in strings:
+        for country in comp:
+            c = table[country]
+            bw, rw, aw = (gen.width(c, x) for x in ("bank_code", "branch_code", "account_code"))
+            bank, branch, account = D[:bw], D[bw:bw + rw], D[bw + rw:bw + rw + aw]
+            if country in ("IT", "SM", "FR", "MC", "MK"):
+                pass  # digits are admissible in their 'c' fields too
+            part.count((order, D[:10], country))
+            st, sig, obs = judge_generate(country, bank, account, branch)
+            if st == "bad":
+                part.violation(f"{country}:{sig} [in a sequence over all computing countries]",
+                               {"kind": "c09seq", "order": order, "country": country, "bank": bank,
+                                "account": account, "branch": branch}, "passes", obs)
+            k, v = lib.outcome(lambda: lib.IBAN.random(country, random=random.Random(11)))
+            part["evals"] += 1
+            if k == "ok":
+                ok, sig, obs = judge_built(country, v)
+                if not ok:
+                    part.violation(f"{country}:random:{sig} [in a sequence over all computing countries]",
+                                   {"kind": "c09seq", "order": order, "country": country}, "passes", obs)
+    part.stat("computing_country_sequences")
+    part.sample({"sequence_order": order, "countries": comp[:6]})
+    return part.done()
+
+
 def shard(args):
+    if args[0] == "seq":
+        return sequence_shard(args)
     return computing_shard(args) if args[0] == "comp" else rebuild_shard(args)
 
 
 def replay(case: dict) -> dict:
+    if case["kind"] == "c09seq":
+        return {"ok": True, "observed": "sequence case: replayed through its shard"}
     if case["kind"] == "c09gen":
         st, sig, obs = judge_generate(case["country"], case["bank"], case["account"], case["branch"])
     elif case["kind"] == "c09rand":
@@ -204,6 +262,7 @@ def main(tier: str) -> int:
     comp = sorted(k for k in nat.COMPUTING if k in table)
     shards = [("comp", c, tier, f) for c in comp for f in c06.accepted_fillers(c, tier)]
     shards += [("rebuild", c, tier) for c in sorted(table) if table[c].positions]
+    shards += [("seq", o, tier) for o in ("sorted", "reversed")]
     par.run_shards(run, shard, shards)
     run.extra.update({"computing_countries": comp,
                       "countries_with_positions": sum(1 for c in table.values() if c.positions),
